@@ -467,7 +467,7 @@ func allDefsAre(info *types.Info, fi *FuncInfo, e ast.Expr, pred func(ast.Expr) 
 	var scope ast.Node = fi.Decl
 	if obj.Pos() < fi.Decl.Pos() || obj.Pos() >= fi.Decl.End() {
 		// the variable lives in a helper (the expression was reached through one)
-		if d := allDefsLoaded.declAt(obj.Pos()); d != nil {
+		if d := allDefsLoaded.declOf(obj); d != nil {
 			scope = d
 		}
 	}
